@@ -112,6 +112,11 @@ pub trait Field: Sized + Copy + PartialEq + Add<Output = Self> + Sub<Output = Se
             r == Self::spec_from_u64(n as u64),
     ;
 
+    fn from_bool(b: bool) -> (r: Self)
+        ensures
+            r == Self::spec_from_u64(if b { 1u64 } else { 0u64 }),
+    ;
+
     fn from_canonical_u32(n: u32) -> (r: Self)
         ensures
             r == Self::spec_from_u64(n as u64),
